@@ -165,6 +165,7 @@ func (h *FBDNSDB) ServeDNSWithRCODE(ctx context.Context, w dns.ResponseWriter, r
 		return dns.RcodeServerFailure, nil
 	}
 	defer reader.Close()
+	verifYield("query.reader-acquired")
 	// State carries important information about the current request.
 	// It is also used to write the reply.
 	state := request.Request{W: w, Req: r}
@@ -206,6 +207,7 @@ func (h *FBDNSDB) ServeDNSWithRCODE(ctx context.Context, w dns.ResponseWriter, r
 		return dns.RcodeServerFailure, nil
 	}
 
+	verifYield("query.location-found")
 	if loc.Mask > 0 {
 		h.stats.IncrementCounter("DNS_location.ecs")
 	} else if loc.LocID[0] == 0 && loc.LocID[1] == 0 {
@@ -251,6 +253,7 @@ func (h *FBDNSDB) ServeDNSWithRCODE(ctx context.Context, w dns.ResponseWriter, r
 		}
 	}
 
+	verifYield("query.cache-probed")
 	// Set default answer payload
 	a := new(dns.Msg)
 	a.SetReply(r)
@@ -261,6 +264,7 @@ func (h *FBDNSDB) ServeDNSWithRCODE(ctx context.Context, w dns.ResponseWriter, r
 	// its name servers. The domain returned is the one for which we found
 	// matching SOA or NS
 	ns, auth, zoneCut, err := reader.IsAuthoritative(packedQName, loc)
+	verifYield("query.authority-checked")
 
 	if err != nil {
 		h.stats.IncrementCounter("DNS_error.is_authoritative")
@@ -322,6 +326,7 @@ func (h *FBDNSDB) ServeDNSWithRCODE(ctx context.Context, w dns.ResponseWriter, r
 			// log something
 		}
 		weighted, recordFound = reader.FindAnswer(packedQName, zoneCut, state.QName(), state.QType(), loc, a, maxAns)
+		verifYield("query.answer-found")
 		if len(a.Answer) == 0 && !recordFound {
 			a.Rcode = dns.RcodeNameError
 		}
@@ -356,6 +361,7 @@ func (h *FBDNSDB) ServeDNSWithRCODE(ctx context.Context, w dns.ResponseWriter, r
 	weighted = db.AdditionalSectionForRecords(reader, a, loc, state.QClass(), a.Answer) || weighted
 	weighted = db.AdditionalSectionForRecords(reader, a, loc, state.QClass(), a.Ns) || weighted
 
+	verifYield("query.before-cache-insert")
 	if h.cacheConfig.Enabled {
 		// Cache answer before we add ECS/options
 		var timeout int64
